@@ -82,26 +82,44 @@ def Service.allArgs (s : Service) : List Arg :=
   s.args ++ s.calls.flatMap (·.args) ++ s.fields.map (·.value)
 
 /-! ### dependency graph -/
-def nService (n : String) : Graph.Node := "service(" ++ n ++ ")"
-def nParam (n : String) : Graph.Node := "param(" ++ n ++ ")"
-def nTag (n : String) : Graph.Node := "tag(" ++ n ++ ")"
-def nDecorate (n : String) : Graph.Node := "decorate(" ++ n ++ ")"
-def nDecorator (i : Nat) : Graph.Node := "decorator(#" ++ toString i ++ ")"
 
-def argEdges (src : Graph.Node) (args : List Arg) : List (Graph.Node × Graph.Node) :=
+/-- nodes of the dependency graph (the runtime's `container/internal/graph` scheme) -/
+inductive Node where
+  | service (n : String)
+  | param (n : String)
+  | tag (t : String)
+  | decorate (t : String)        -- "decorated by tag t"
+  | decorator (i : Nat)
+deriving Repr, DecidableEq, Inhabited
+
+/-- the string id the runtime gives a node (used for ordering and for the protocol) -/
+def Node.id : Node → String
+  | .service n => "service(" ++ n ++ ")"
+  | .param n => "param(" ++ n ++ ")"
+  | .tag t => "tag(" ++ t ++ ")"
+  | .decorate t => "decorate(" ++ t ++ ")"
+  | .decorator i => "decorator(#" ++ toString i ++ ")"
+
+abbrev nService (n : String) : Node := .service n
+abbrev nParam (n : String) : Node := .param n
+abbrev nTag (n : String) : Node := .tag n
+abbrev nDecorate (n : String) : Node := .decorate n
+abbrev nDecorator (i : Nat) : Node := .decorator i
+
+def argEdges (src : Node) (args : List Arg) : List (Node × Node) :=
   (args.flatMap (·.depServices)).map (fun d => (src, nService d)) ++
   (args.flatMap (·.depTags)).map (fun t => (src, nTag t)) ++
   (args.flatMap (·.depParams)).map (fun p => (src, nParam p))
 
-def serviceEdges (s : Service) : List (Graph.Node × Graph.Node) :=
+def serviceEdges (s : Service) : List (Node × Node) :=
   s.tags.flatMap (fun t => [(nTag t.name, nService s.name), (nService s.name, nDecorate t.name)]) ++
   argEdges (nService s.name) s.allArgs
 
-def decoratorEdges (i : Nat) (d : Decorator) : List (Graph.Node × Graph.Node) :=
+def decoratorEdges (i : Nat) (d : Decorator) : List (Node × Node) :=
   (nDecorate d.tag, nDecorator i) :: argEdges (nDecorator i) d.args
 
 /-- `BuildDependencyGraph` -/
-def buildGraph (o : Output) : Graph.G :=
+def buildGraph (o : Output) : Graph.G Node :=
   { edges := o.services.flatMap serviceEdges ++
       (o.decorators.zipIdx.flatMap fun (d, i) => decoratorEdges i d) ++
       o.params.flatMap fun p => p.dependsOn.map fun q => (nParam p.name, nParam q) }
@@ -137,10 +155,9 @@ def scopeOf (o : Output) (n : String) : Scope :=
   | some s => s.scope
   | none => .default
 
-def isServiceNode (id : Graph.Node) : Option String :=
-  if "service(".toList.isPrefixOf id.toList ∧ id.toList.getLast? = some ')' then
-    some (String.ofList ((id.toList.drop 8).dropLast))
-  else none
+def isServiceNode : Node → Option String
+  | .service n => some n
+  | _ => none
 
 /-- the (shared, contextual) pairs `ValidateServicesScopes` reports, in report order:
 shared services by name, their reachable services by node id -/
@@ -149,7 +166,7 @@ def scopePairs (o : Output) : List (String × String) :=
   let names := (o.services.map (·.name)).eraseDups.mergeSort AMap.strLe
   names.flatMap fun s =>
     if scopeOf o s = .shared then
-      (((Graph.reachD g (nService s)).filter (· != nService s)).mergeSort AMap.strLe).filterMap fun id =>
+      (((Graph.reachD g (nService s)).filter (· != nService s)).mergeSort fun a b => AMap.strLe a.id b.id).filterMap fun id =>
         match isServiceNode id with
         | some c => if scopeOf o c = .contextual then some (s, c) else none
         | none => none
